@@ -685,3 +685,46 @@ def bbox_patch_alloc(fn: ast.FunctionDef) -> list[tuple[str, str]]:
     if not rows:
         raise Untranslatable("no assignment to `patch` in crop_to_bbox")
     return rows
+
+
+# --------------------------------------------------------------------------------------------------
+def primitive_edges(repo) -> list[tuple[str, str]]:
+    """(caller, primitive) call edges: which crop / pad primitive each composite function / module is built on.
+    Private module-level helpers (`_name`) the caller uses are followed; for classes the whole body counts
+    (`self.crop_func = T.complex_center_crop` lives in `__init__`)."""
+    import pathlib
+    import warnings
+
+    def parse(rel):
+        with warnings.catch_warnings():
+            warnings.simplefilter("ignore")
+            return ast.parse((pathlib.Path(repo) / rel).read_text())
+
+    def refs(node, mods, seen):
+        out = set()
+        for n in ast.walk(node):
+            name = n.id if isinstance(n, ast.Name) else n.attr if isinstance(n, ast.Attribute) else None
+            if name in PRIMS and isinstance(getattr(n, "ctx", None), ast.Load):
+                out.add(name)
+            if isinstance(n, ast.Name) and n.id.startswith("_") and n.id in mods and n.id not in seen:
+                seen.add(n.id)
+                out |= refs(mods[n.id], mods, seen)
+        return out
+
+    rows = []
+    try:
+        for rel, names in (("direct/data/transforms.py", ["complex_center_crop", "complex_random_crop"]),
+                           ("direct/data/bbox.py", ["crop_to_largest"])):
+            tree = parse(rel)
+            mods = module_functions(tree)
+            for nm in names:
+                if nm not in mods:
+                    raise Untranslatable(f"`{nm}` not found in {rel}")
+                rows += [(nm, r) for r in sorted(refs(mods[nm], mods, {nm}) - {nm})]
+        tree = parse("direct/data/mri_transforms.py")
+        mods = module_functions(tree)
+        for cname in ("CropKspace", "PadKspace"):
+            rows += [(cname, r) for r in sorted(refs(class_def(tree, cname), mods, set()))]
+    except (OSError, SyntaxError) as e:
+        raise Untranslatable(f"cannot read the sources: {e}")
+    return rows
